@@ -23,5 +23,9 @@ def run(ctx):
     ctx.pipe([h, "cache", "20" if ctx.tier == "quick" else "200", "17", "32"], "cache", label="level-caches")
     # the parallel regions of these operators must be race-free, otherwise the result depends on the schedule
     ctx.schedule_conflicts(("ResidualGive", "ResidualTake"))
+    # the residual operators as the SOLVER reaches them (setup() -> Level::initializeResidual -> Level::computeResidual), with the option
+    # values the solver object holds: the glue between the options and the operator constructors
+    hs = ctx.build_harness("h_solver")
+    ctx.pipe([hs, "levelops", "residual", "16" if ctx.tier == "quick" else "150"], "residual", label="residual-through-the-solver-object")
     ctx.assumptions += ["theorem give = take needs antipodally symmetric angular spacing across the origin (C03.hk_needed shows it is necessary); "
                         "grids accepted by the constructor have it up to rounding", "rounding is covered by the allowance, not proved"]
